@@ -156,7 +156,124 @@ def candidates(case):
                 yield c
 
 
+# ---- pastified discrete online and dense time -----------------------------------
+
+from fractions import Fraction                                    # noqa: E402
+from ..dense import DENSE, DENSE_PAST, grid_signal, to_time, check_shape     # noqa: E402
+from ..monitors import run_ct_off, run_ct_on                       # noqa: E402
+from ..refsem import step_at                                       # noqa: E402
+
+Q = Fraction(1, 4)
+BFUT = Profile(un_temp=F.UN_PAST, bin_temp=F.BIN_PAST, tbin=('since', 'until'), max_depth=3, max_bound=3, no_future_under_past=True)
+LAWS_DENSE = ('not-ev[]', 'not-once[]', 'not-once', 'implies', 'ev-ev', 'once-once')
+LAWS_DENSE_ON = ('not-once[]', 'not-once', 'implies', 'once-once')
+LAWS_PASTIFIED = ('not-ev[]', 'ev-ev', 'implies', 'not-once[]', 'once-once')
+
+
+@st.composite
+def cases2(draw, tier, kind):
+    prof = {'dt_on_past': BFUT, 'ct_off': DENSE.copy(max_depth=3, max_bound=4), 'ct_on': DENSE_PAST.copy(max_depth=3, max_bound=4)}[kind]
+    laws = {'dt_on_past': LAWS_PASTIFIED, 'ct_off': LAWS_DENSE, 'ct_on': LAWS_DENSE_ON}[kind]
+    law = draw(st.sampled_from(laws))
+    nv = draw(st.integers(1, 2))
+    vs = list(F.VAR_POOL[:nv])
+    p, _ = draw(F.formulas(prof, variables=vs))
+    q, _ = draw(F.formulas(prof, variables=vs))
+    b = draw(st.integers(0, 3))
+    a = draw(st.integers(0, b))
+    d = draw(st.integers(0, 3))
+    c = draw(st.integers(0, d))
+    case = {'law': law, 'p': p, 'q': q, 'a': a, 'b': b, 'c': c, 'd': d, 'vars': vs, 'kind': kind}
+    if kind == 'dt_on_past':
+        lhs, _r = sides(law, p, q, a, b, c, d)
+        n = (F.horizon(lhs) or 0) + draw(st.sampled_from([1, 2, 3, 5]))
+        case['trace'] = draw(F.traces(vs, n=n))
+    else:
+        case['signals'] = {v: draw(grid_signal(0, max_samples=6)) for v in vs}
+    return case
+
+
+def check2(case):
+    p = from_json(case['p'])
+    q = from_json(case['q'])
+    law, kind = case['law'], case['kind']
+    vs = list(case['vars'])
+    lhs, rhs = sides(law, p, q, case['a'], case['b'], case['c'], case['d'])
+    used = F.fvars(lhs)
+    labels = ['law:' + law, 'kind:' + kind] + feature_labels(lhs)
+    if not used:
+        return DISCARD('no-variable', labels)
+    feed = [v for v in vs if v in used]
+    if kind == 'dt_on_past':
+        if F.horizon(lhs) is None or F.horizon(lhs) != F.horizon(rhs):
+            return DISCARD('horizons', labels)
+        if law in ('not-once[]', 'once-once') and F.has_future(p):
+            return DISCARD('past-operator-over-future-operand(open C03 finding)', labels)
+        h = F.horizon(lhs)
+        w = {v: [float(x) for x in case['trace'][v]] for v in feed}
+        ol = run_dt_on('out = ' + show(lhs), feed, w, pastify=True)
+        orr = run_dt_on('out = ' + show(rhs), feed, w, pastify=True)
+        desc = 'law %s on the pastified discrete online monitor (horizon %d)\nlhs: %s\nrhs: %s\ntrace: %s' % (law, h, show(lhs), show(rhs), w)
+        if ol[0] != 'ok' and orr[0] != 'ok':
+            return DISCARD('both-raise(C17)', labels)
+        if ol[0] != 'ok' or orr[0] != 'ok':
+            bad = ol if ol[0] != 'ok' else orr
+            return FAIL('one-side-raises:%s:%s' % (law, bad[1]), desc + '\none side raised %s: %s at %s' % (bad[1], bad[3], bad[4]), labels)
+        a, b = ol[1][h:], orr[1][h:]
+        if any(x != x for x in a + b):
+            return DISCARD('nan', labels)
+        if a != b:
+            return FAIL('law:%s:%s' % (law, kind), desc + '\nlhs from update %d: %s\nrhs from update %d: %s' % (h, fmt_vals(a), h, fmt_vals(b)), labels)
+        return PASS((F.n_temporal(p) >= 1 or h >= 2) and len(set(a)) > 1, labels)
+    bp = F.make_scaled_bound_printer(Q)
+    sig = to_time({v: [(int(k), float(x)) for k, x in case['signals'][v]] for v in feed}, Q)
+    tl, tr_ = 'out = ' + F.show(lhs, bp), 'out = ' + F.show(rhs, bp)
+    if kind == 'ct_off':
+        ol, orr = run_ct_off(tl, feed, sig), run_ct_off(tr_, feed, sig)
+        outs = [ol[1] if ol[0] == 'ok' else None, orr[1] if orr[0] == 'ok' else None]
+    else:
+        ol, orr = run_ct_on(tl, feed, [sig]), run_ct_on(tr_, feed, [sig])
+        outs = [ol[1][0] if ol[0] == 'ok' else None, orr[1][0] if orr[0] == 'ok' else None]
+    desc = 'law %s on %s\nlhs: %s\nrhs: %s\nsignals: %s' % (law, kind, tl, tr_, sig)
+    if ol[0] != 'ok' and orr[0] != 'ok':
+        return DISCARD('both-raise(C17)', labels)
+    if ol[0] != 'ok' or orr[0] != 'ok':
+        bad = ol if ol[0] != 'ok' else orr
+        return FAIL('one-side-raises:%s:%s' % (law, bad[1]), desc + '\none side raised %s: %s at %s' % (bad[1], bad[3], bad[4]), labels)
+    if check_shape(outs[0]) or check_shape(outs[1]):
+        return DISCARD('shape(C04/C05)', labels)
+    if not outs[0] or not outs[1]:
+        if bool(outs[0]) != bool(outs[1]):
+            return FAIL('law:%s:%s' % (law, kind), desc + '\nlhs: %r\nrhs: %r' % (outs[0], outs[1]), labels)
+        return PASS(False, labels)
+    kend = min(case['signals'][v][-1][0] for v in feed)
+    hi = min(outs[0][-1][0], outs[1][-1][0], float(kend * Q))
+    k2 = 0
+    vals = set()
+    while float(Fraction(k2, 2) * Q) <= hi:
+        t = float(Fraction(k2, 2) * Q)
+        x, y = step_at(outs[0], t), step_at(outs[1], t)
+        if x is None or y is None or x != y:
+            return FAIL('law:%s:%s' % (law, kind), desc + '\nat t=%g: lhs %r, rhs %r\nlhs: %r\nrhs: %r' % (t, x, y, outs[0], outs[1]), labels)
+        vals.add(x)
+        k2 += 1
+    return PASS(F.n_temporal(p) >= 1 and len(vals) > 1, labels)
+
+
+def candidates2(case):
+    for c in candidates(dict(case, trace=case.get('trace', {'_': [0.0]}))):
+        c = dict(c)
+        if 'trace' not in case:
+            c.pop('trace', None)
+        elif len(next(iter(c['trace'].values()))) < len(next(iter(case['trace'].values()))):
+            continue
+        yield c
+
+
 LANES = [
     Lane('dt_off', lambda tier: cases(tier, 'dt_off'), check, 4000, 60000, candidates),
     Lane('dt_on', lambda tier: cases(tier, 'dt_on'), check, 3000, 40000, candidates),
+    Lane('dt_on_past', lambda tier: cases2(tier, 'dt_on_past'), check2, 2000, 30000, candidates2),
+    Lane('ct_off', lambda tier: cases2(tier, 'ct_off'), check2, 2500, 40000, candidates2),
+    Lane('ct_on', lambda tier: cases2(tier, 'ct_on'), check2, 1500, 20000, candidates2),
 ]
